@@ -460,19 +460,19 @@ Proof. intros H X. apply dominant_specb_complete in X. congruence. Qed.
 Theorem dominant_is_argmax_refuted_unsorted :
   exists c, wf_chart c = true /\ last_is_noteb c = true /\ ssortedb (tempo_times c) = false
             /\ dominant_bpm c = Some 120 /\ ~ dominant_spec 0 c (dominant_bpm c).
-Proof. exists witness_unsorted. repeat split; try (vm_compute; reflexivity). apply refute_by_oracle. vm_compute. reflexivity. Qed.
+Proof. exists witness_unsorted. do 4 (split; [vm_compute; reflexivity|]). apply refute_by_oracle. vm_compute. reflexivity. Qed.
 
 (* a tempo point after the last object: 9000 ms are credited to 240 although only 500 ms of it lie before the last object *)
 Theorem dominant_is_argmax_refuted_tempo_after_last :
   exists c, wf_chart c = true /\ ssortedb (tempo_times c) = true /\ last_is_noteb c = false
             /\ dominant_bpm c = Some 240 /\ ~ dominant_spec 0 c (dominant_bpm c).
-Proof. exists witness_tempo_after_last. repeat split; try (vm_compute; reflexivity). apply refute_by_oracle. vm_compute. reflexivity. Qed.
+Proof. exists witness_tempo_after_last. do 4 (split; [vm_compute; reflexivity|]). apply refute_by_oracle. vm_compute. reflexivity. Qed.
 
 (* an SV after the last object extends the last tempo segment the same way (games with SVs) *)
 Theorem dominant_is_argmax_refuted_sv_after_last :
   exists c, wf_chart c = true /\ ssortedb (tempo_times c) = true /\ last_is_noteb c = false
             /\ dominant_bpm c = Some 240 /\ ~ dominant_spec 0 c (dominant_bpm c).
-Proof. exists witness_sv_after_last. repeat split; try (vm_compute; reflexivity). apply refute_by_oracle. vm_compute. reflexivity. Qed.
+Proof. exists witness_sv_after_last. do 4 (split; [vm_compute; reflexivity|]). apply refute_by_oracle. vm_compute. reflexivity. Qed.
 
 (* scroll_speed / sv_normalize inherit the wrong reference (oracle level: the proven-sound oracle rejects the model's
    output on the same witnesses; completeness of these two oracles is not proved) *)
